@@ -1316,7 +1316,7 @@ def run(ctx: Ctx):
     import logging
     logging.disable(logging.CRITICAL)
     SIG_COUNT.clear()
-    schemas = schema_gen.load_normalised()
+    schemas = schema_gen.load_normalised(strict=False)     # generators only; the model uses the strict translation
     world = World()
     counters = Counters().install()
     cases, terms = [], []
